@@ -331,9 +331,69 @@ func (g *G) bcall(name string, args ...Expr) (Expr, bool) {
 	}
 	if v.K == KFn && v.Sig != nil && v.Sig.Shadow {
 		g.f("call-shadowed-builtin")
-		return &Call{Fn: Id(name), Args: args}, true
+		// the shadowing function returns its arguments, and its result may end up in a string
+		// (concatenation, println): a map with more than one key renders in Go's random iteration
+		// order, so such arguments are replaced by scalars.
+		safe := make([]Expr, len(args))
+		for i, a := range args {
+			if g.mayHoldMultiKeyMap(a) {
+				a = g.scalarLit()
+			}
+			safe[i] = a
+		}
+		return &Call{Fn: Id(name), Args: safe}, true
 	}
 	return nil, false
+}
+
+// mayHoldMultiKeyMap: conservatively, can the value of e contain a map with two or more keys?
+func (g *G) mayHoldMultiKeyMap(e Expr) bool {
+	switch x := e.(type) {
+	case *Lit:
+		return false
+	case *MapLit:
+		if len(x.Keys) >= 2 {
+			return true
+		}
+		for _, el := range x.Elems {
+			if g.mayHoldMultiKeyMap(el) {
+				return true
+			}
+		}
+		return false
+	case *ArrayLit:
+		for _, el := range x.Elems {
+			if g.mayHoldMultiKeyMap(el) {
+				return true
+			}
+		}
+		return false
+	case *Paren:
+		return g.mayHoldMultiKeyMap(x.X)
+	case *Unary:
+		return g.mayHoldMultiKeyMap(x.X)
+	case *Binary:
+		return g.mayHoldMultiKeyMap(x.L) || g.mayHoldMultiKeyMap(x.R)
+	case *Cond:
+		return g.mayHoldMultiKeyMap(x.A) || g.mayHoldMultiKeyMap(x.B)
+	case *Ident:
+		if v := g.lookup(x.Name); v != nil {
+			switch v.K {
+			case KInt, KStr, KBool, KFloat, KFn, KErr, KNone:
+				return false
+			}
+		}
+		return true
+	case *Call:
+		if id, ok := x.Fn.(*Ident); ok && g.lookup(id.Name) == nil {
+			switch id.Name { // builtins with scalar results
+			case "len", "int", "uint", "float", "char", "string", "bool", "typeName", "isInt", "isString", "isError", "contains", "sprintf", "error":
+				return false
+			}
+		}
+		return true
+	}
+	return true
 }
 
 func (g *G) expr(k Kind, d int) Expr {
